@@ -174,11 +174,50 @@ impl Engine for LiveEngine {
         } else {
             (sim, store, keys, clients)
         };
+        // swept family (own tape): keys with a one-second TTL are flushed, expire and are removed
+        // from memory by the background sweeper; their extents must be retired on the device too
+        let mut sw = Tape::fresh(mix(seed, 0x5EE9));
+        let swept = !slow_reader && sw.chance(1, 6);
+        let (sim, store, clients) = if swept {
+            let sim = SimConfig {
+                strategy: match sw.below(3) {
+                    0 => Strategy::Random,
+                    1 => Strategy::Sticky(100),
+                    _ => Strategy::Pct(2),
+                },
+                tick_ns: *sw.pick(&[0u64, 50, 200]),
+                ..sim
+            };
+            let store = StoreCfg {
+                ttl: true,
+                format: *sw.pick(&[3u32, 3, 2]),
+                data_blocks: 256,
+                sweeper: Some(SweeperCfg { interval_ms: *sw.pick(&[10u64, 50, 100]), sample_size: 4 + sw.below(20) as usize }),
+                ..store
+            };
+            let n_clients = 1 + sw.below(3) as usize;
+            let mut clients = Vec::new();
+            for ci in 0..n_clients {
+                let mine: Vec<usize> = (0..keys.len()).filter(|k| k % n_clients == ci).collect();
+                let mut ops = Vec::new();
+                for key in mine {
+                    ops.push(Op::Insert { key, val: Val { len: gen_len(&mut sw, 3), kind: ValKind::Plain }, ts: Ts::Auto, ttl: if sw.chance(4, 5) { 1 } else { 0 }, bytes: sw.chance(1, 2) });
+                    if sw.chance(1, 3) {
+                        ops.push(Op::Advance { ns: *sw.pick(&[1_000_000u64, 40_000_000, 130_000_000]) });
+                    }
+                }
+                clients.push(ops);
+            }
+            (sim, store, clients)
+        } else {
+            (sim, store, clients)
+        };
         let mut knobs = BTreeMap::new();
+        knobs.insert("swept".into(), swept as i64);
         knobs.insert("slow_reader".into(), slow_reader as i64);
-        knobs.insert("steady".into(), (steady && !slow_reader) as i64);
-        knobs.insert("burst".into(), (burst && !slow_reader) as i64);
-        knobs.insert("hot".into(), (hot && !slow_reader) as i64);
+        knobs.insert("steady".into(), (steady && !slow_reader && !swept) as i64);
+        knobs.insert("burst".into(), (burst && !slow_reader && !swept) as i64);
+        knobs.insert("hot".into(), (hot && !slow_reader && !swept) as i64);
         let _ = property;
         Scenario {
             engine: "live".into(),
@@ -297,8 +336,9 @@ impl Engine for LiveEngine {
                 }
             }
         }
-        if report.violation.is_none() && !log.is_empty() {
-            // (2) after the retirement bound nothing superseded is left behind
+        if report.violation.is_none() && !log.is_empty() && sc.knob("swept", 0) == 0 {
+            // (2) after the retirement bound nothing superseded is left behind (runs with the
+            // sweeper keep producing retirements around this instant: they are judged by (3))
             // a reader may hold an extent for as long as its read takes: the bound runs from the
             // later of the last modification and the return of the last read
             let t_last = log.iter().map(|c| c.at).max().unwrap().max(last_read_done);
@@ -330,6 +370,62 @@ impl Engine for LiveEngine {
                         }
                     }
                     Err(why) => report.fail("image-rejected", format!("durable image rejected by the independent reader: {why}")),
+                }
+            }
+        }
+        if report.violation.is_none() && sc.knob("swept", 0) == 1 && !log.is_empty() {
+            // (3) what the sweeper has removed from memory is retired on the device within the bound
+            let t_last = log.iter().map(|c| c.at).max().unwrap();
+            let wait = (t_last + 1_600_000_000).saturating_sub(sim.now_mono());
+            sim.sleep(Duration::from_nanos(wait));
+            let swept_now: Vec<Vec<u8>> = log
+                .iter()
+                .filter(|c| c.state.as_ref().is_some_and(|g| g.expiry != 0))
+                .map(|c| c.key.clone())
+                .filter(|k| store.verif_key(k).is_none())
+                .collect::<std::collections::BTreeSet<_>>()
+                .into_iter()
+                .collect();
+            sim.sleep(Duration::from_nanos(RETIRE_BOUND_NS));
+            report.count("swept_runs", 1);
+            if std::env::var("SIMCHECK_DEBUG").is_ok() {
+                let d = codec::decode_image(&disk.durable_image(), DecodeOptions::default());
+                eprintln!(
+                    "swept: {:?} | memory {:?} | image live {:?}",
+                    swept_now.iter().map(|k| show(k)).collect::<Vec<_>>(),
+                    store.verif_hash_keys().iter().map(|k| (show(&k.key), k.expiry % 100_000_000_000, k.sector)).collect::<Vec<_>>(),
+                    d.map(|d| d.live.iter().map(|(k, r)| (show(k), r.expiry % 100_000_000_000, r.sector)).collect::<Vec<_>>())
+                );
+            }
+            report.count("swept_keys_seen", swept_now.len() as u64);
+            match codec::decode_image(&disk.durable_image(), DecodeOptions::default()) {
+                Ok(d) => {
+                    for k in &swept_now {
+                        if let Some(r) = d.live.get(k) {
+                            report.fail(
+                                "swept-generation-not-retired",
+                                format!(
+                                    "key {}: removed from memory by the sweeper more than {} virtual ms ago, but the durable image still holds its generation (ts={}, expiry={}) at sector {}",
+                                    show(k),
+                                    RETIRE_BOUND_NS / 1_000_000,
+                                    r.timestamp,
+                                    r.expiry,
+                                    r.sector
+                                ),
+                            );
+                            break;
+                        }
+                    }
+                }
+                Err(why) => report.fail("image-rejected", format!("durable image rejected by the independent reader: {why}")),
+            }
+            if report.violation.is_none() {
+                if let Err(f) = checks::check_partition(&env) {
+                    // the sweeper may be mid-removal: the partition has to hold once it is quiet
+                    sim.sleep(Duration::from_millis(500));
+                    if checks::check_partition(&env).is_err() {
+                        report.fail(f.rule, format!("after the sweeper retired expired keys: {}", f.detail));
+                    }
                 }
             }
         }
